@@ -1,5 +1,5 @@
 (* Totality of the skeleton: a request that validate_constraints accepts is never rejected by the decomposition
-   (positive inner budget, at most n initial factors), whatever the environment.  Together with zcp_rejects:
+   (every inner budget - 0 included since fix fe4edf7 -, exactly n initial factors), whatever the environment.  Together with zcp_rejects:
    the decomposition raises exactly on the requests validate_constraints rejects. *)
 From Coq Require Import List Arith Bool Lia ZArith.
 From TLV Require Import Base.PyList Base.Tensor.
@@ -26,31 +26,32 @@ Section Total.
       apply IH. left. discriminate.
   Qed.
 
-  Lemma admm_total n_iter split conv prox x dual : (forall v, exists y, prox v = Ok y) -> 0 < n_iter ->
+  (* every inner budget: 0 returns the start (fix fe4edf7), >= 1 the loop's result *)
+  Lemma admm_total n_iter split conv prox x dual : (forall v, exists y, prox v = Ok y) ->
     exists r, admm msub madd n_iter split conv prox x dual = Ok r.
   Proof.
-    intros Hp Hn. unfold admm.
-    destruct (admm_loop_total split conv prox Hp n_iter 0 x dual None (or_intror Hn)) as (x' & s & d' & ->). simpl. eauto.
+    intros Hp. destruct n_iter as [|k]; [eexists; reflexivity|]. unfold admm.
+    destruct (admm_loop_total split conv prox Hp (S k) 0 x dual None (or_intror (Nat.lt_0_succ k))) as (x' & s & d' & ->). simpl. eauto.
   Qed.
 
   Variable E : env (M := M).
 
-  Lemma update_mode_total inner it st mode : mode < n -> 0 < inner ->
+  Lemma update_mode_total inner it st mode : mode < n ->
     exists st', update_mode dM op val msub madd E inner it st mode = Ok st'.
   Proof.
-    intros Hm Hi. destruct st as [fs duals]. unfold update_mode.
+    intros Hm. destruct st as [fs duals]. unfold update_mode.
     destruct (admm_total inner (e_split E fs mode) (e_conv E it mode) (proximal_operator op val mode)
                          (nth mode fs dM) (nth mode duals dM)) as ([[x s] d] & ->); auto.
     - intros v. apply proximal_operator_total. exact Hm.
     - simpl. eauto.
   Qed.
 
-  Lemma sweep_total inner it : 0 < inner -> forall modes st, Forall (fun m => m < n) modes ->
+  Lemma sweep_total inner it : forall modes st, Forall (fun m => m < n) modes ->
     exists st', sweep dM op val msub madd E inner it st modes = Ok st'.
   Proof.
-    intros Hi. induction modes as [|a r IH]; intros st F; simpl; [eauto|].
+    induction modes as [|a r IH]; intros st F; simpl; [eauto|].
     inversion F as [|? ? Fa Fr]; subst.
-    destruct (update_mode_total inner it st a Fa Hi) as (st1 & ->). simpl. apply IH. exact Fr.
+    destruct (update_mode_total inner it st a Fa) as (st1 & ->). simpl. apply IH. exact Fr.
   Qed.
 
   Lemma err_defined_last modes fs : In (n - 1) modes -> err_defined E n modes fs = true.
@@ -59,11 +60,11 @@ Section Total.
     apply memb_In in H. rewrite H. reflexivity.
   Qed.
 
-  Lemma outer_loop_total inner modes : 0 < inner -> Forall (fun m => m < n) modes -> In (n - 1) modes ->
+  Lemma outer_loop_total inner modes : Forall (fun m => m < n) modes -> In (n - 1) modes ->
     forall fuel it st, exists st', outer_loop dM op val msub madd E n inner fuel it modes st = Ok st'.
   Proof.
-    intros Hi F Hl. induction fuel as [|f IH]; intros it st; simpl; [eauto|].
-    destruct (sweep_total inner it Hi modes st F) as (st1 & ->). simpl.
+    intros F Hl. induction fuel as [|f IH]; intros it st; simpl; [eauto|].
+    destruct (sweep_total inner it modes st F) as (st1 & ->). simpl.
     rewrite err_defined_last by exact Hl.
     destruct (e_stop E it (fst st1) (snd st1)); [eauto | apply IH].
   Qed.
@@ -75,19 +76,19 @@ Section Total.
     destruct (IH (S i)) as (r' & -> & L); [lia|]. simpl. eexists. split; [reflexivity | simpl; congruence].
   Qed.
 
-  (* a run succeeds when: the order is >= 1, the inner budget is >= 1, there are exactly n initial factors, and - unless the
-     outer budget is 0 - the last mode is updated (always the case when fixed_modes has no repeated entry) *)
-  Theorem cp_total i0 fixed n_outer n_inner zero : 0 < n -> 0 < n_inner -> length (init_factors i0) = n ->
+  (* a run succeeds when: the order is >= 1, there are exactly n initial factors, and - unless the outer budget is 0 - the last mode is
+     updated (always the case when fixed_modes has no repeated entry); every inner budget (0 included since fix fe4edf7) *)
+  Theorem cp_total i0 fixed n_outer n_inner zero : 0 < n -> length (init_factors i0) = n ->
     n_outer = 0 \/ In (n - 1) (modes_list n fixed) ->
     exists fs, constrained_cp dM op val msub madd E n i0 fixed n_outer n_inner zero = Ok fs.
   Proof.
-    intros Hn Hi Hl Hu. unfold constrained_cp. destruct (val_ok 0 Hn) as (c & ->). simpl.
+    intros Hn Hl Hu. unfold constrained_cp. destruct (val_ok 0 Hn) as (c & ->). simpl.
     assert (I : exists fs0, initialize op val i0 = Ok fs0 /\ length fs0 = n).
     { destruct i0 as [raw | ufs]; simpl in *; [|eauto].
       destruct (prox_all_total raw 0) as (fs' & -> & L); [lia|]. eexists. split; [reflexivity | congruence]. }
     destruct I as (fs0 & -> & L0). simpl. rewrite L0, Nat.eqb_refl, andb_false_r.
     destruct Hu as [-> | Hu]; [simpl; eauto|].
-    destruct (outer_loop_total n_inner (modes_list n fixed) Hi) with (fuel := n_outer) (it := 0)
+    destruct (outer_loop_total n_inner (modes_list n fixed)) with (fuel := n_outer) (it := 0)
       (st := (fs0, map (fun _ : M => zero) fs0)) as (st & ->).
     - apply Forall_forall. intros m Hm. eapply modes_list_lt; eauto.
     - exact Hu.
@@ -100,24 +101,24 @@ Section TotalKeys.
 
   (* a request that validate_constraints accepts is not rejected by the decomposition *)
   Theorem zcp_valid_request_returns n (sp : list (kind * @zspec P)) tab (E : env (M := M)) i0 fixed n_outer n_inner zero :
-    zvalidate_table truthy n sp = Ok tab -> 0 < n -> 0 < n_inner -> length (init_factors i0) = n ->
+    zvalidate_table truthy n sp = Ok tab -> 0 < n -> length (init_factors i0) = n ->
     n_outer = 0 \/ In (n - 1) (modes_list n fixed) ->
     exists fs, constrained_cp dM op (zvalidate truthy n sp) msub madd E n i0 fixed n_outer n_inner zero = Ok fs.
   Proof.
-    intros H Hn Hi Hl Hu. apply cp_total; auto.
+    intros H Hn Hl Hu. apply cp_total; auto.
     intros m Hm. unfold zvalidate. rewrite H. simpl. apply Nat.ltb_lt in Hm. rewrite Hm. eauto.
   Qed.
 
   (* the decomposition raises exactly on the requests that put two constraints on one mode / address no existing mode *)
   Theorem zcp_err_iff n (sp : list (kind * @zspec P)) (E : env (M := M)) i0 fixed n_outer n_inner zero :
-    zwf_specs sp -> 0 < n -> 0 < n_inner -> length (init_factors i0) = n -> n_outer = 0 \/ In (n - 1) (modes_list n fixed) ->
+    zwf_specs sp -> 0 < n -> length (init_factors i0) = n -> n_outer = 0 \/ In (n - 1) (modes_list n fixed) ->
     (constrained_cp dM op (zvalidate truthy n sp) msub madd E n i0 fixed n_outer n_inner zero = Err <->
      zdouble truthy n sp \/ zself_alias n sp \/ zno_mode truthy n sp).
   Proof.
-    intros Wf Hn Hi Hl Hu. split.
+    intros Wf Hn Hl Hu. split.
     - intros H. apply (zvalidate_table_err_iff truthy n sp Wf).
       destruct (zvalidate_table truthy n sp) as [tab|] eqn:T; [|reflexivity].
-      destruct (zcp_valid_request_returns n sp tab E i0 fixed n_outer n_inner zero T Hn Hi Hl Hu) as (fs & X).
+      destruct (zcp_valid_request_returns n sp tab E i0 fixed n_outer n_inner zero T Hn Hl Hu) as (fs & X).
       rewrite X in H. discriminate H.
     - apply zcp_rejects. exact Wf.
   Qed.
